@@ -48,7 +48,8 @@ impl<T> VIter<T> {
     // Iterator::filter_map
     #[verifier::external_body]
     pub fn filter_map<U, F: Fn(T) -> Option<U>>(self, f: F) -> (r: VIter<U>)
-        requires forall|x: T| f.requires((x,)),
+        // (the closure is only ever called on the elements of the sequence)
+        requires forall|i: int| 0 <= i < self@.len() ==> f.requires((#[trigger] self@[i],)),
         ensures forall|g: spec_fn(T) -> Option<U>| (forall|x: T, y: Option<U>| f.ensures((x,), y) ==> y == g(x)) ==> r@ == #[trigger] seq_filter_map(self@, g),
             // relational form (closures whose result is not a function of the argument): `idx` are the positions that were kept
             exists|idx: Seq<int>| #[trigger] idx_increasing(idx, self@.len() as int) && idx.len() == r@.len()
